@@ -267,6 +267,8 @@ func (e *Engine) writeSetOfBlocks(fn *ssa.Function, blocks map[*ssa.BasicBlock]b
 				e.callWrites(x.Common(), w, fn, visiting)
 			case *ssa.Go:
 				// spawned goroutine: not part of this function's sequential effect (logged)
+			case *ssa.Next, *ssa.Range:
+				e.rangeGhostWrites(in, w) // models_coord.go: ghosts of a map range loop
 			case *ssa.Send:
 				w.setAll("loops.go:253")
 			case *ssa.Select:
